@@ -2,8 +2,8 @@
    executable semantics. Definitions only.
 
    A rule is abstracted to its schedule-independent outcome (what C01/C02/C15
-   determine): does it fail, does it report the returned-flag, does it set the
-   stop tag. One call of an entry point then deterministically yields a list
+   determine): does it fail, does it report the returned-flag (and with which
+   value: [eval], None = nil, the value of a bare return), does it set the stop tag. One call of an entry point then deterministically yields a list
    of *segments* — [Seq l]: the rules of l run one after the other;
    [Par l]: the rules of l run on goroutines joined by a WaitGroup — plus the
    error flag and the result map. All nondeterminism (goroutine interleaving)
@@ -17,8 +17,13 @@ Record erule := mkER {
   esal  : Z;        (* Salience *)
   efail : bool;     (* Execute returns err != nil *)
   eret  : bool;     (* Execute returns the returned-flag *)
-  estop : bool      (* body sets sTag.StopTag = true *)
+  estop : bool;     (* body sets sTag.StopTag = true *)
+  eval  : option Z  (* the value the rule's [return] yields; None = Go nil (a bare [return]) *)
 }.
+
+(* the result map g.returnResult: rule name -> returned value, in insertion order
+   (the order is a model artefact; Go maps are unordered, keys are unique) *)
+Definition rmap := list (string * option Z).
 
 Record cfg := mkCfg {
   c_rules  : list erule;          (* rb.Kc.SortRules (and the values of RuleEntities) *)
@@ -28,7 +33,7 @@ Record cfg := mkCfg {
   c_names  : list string;         (* selection list *)
   c_layers : list (list string);  (* DAG layers *)
   c_stop0  : bool;                (* sTag.StopTag when the call starts *)
-  c_prev   : option (list string) (* result map left by the previous call on this engine; None = fresh engine (nil map) *)
+  c_prev   : option rmap          (* result map left by the previous call on this engine; None = fresh engine (nil map) *)
 }.
 
 Inductive seg := Seq (l : list erule) | Par (l : list erule).
@@ -75,7 +80,7 @@ Record mstate := mkSt {
   st_errs  : bool;                 (* len(eMsg) > 0 *)
   st_stop  : bool;                 (* sTag.StopTag *)
   st_segs  : list seg;             (* in execution order *)
-  st_map   : option (list string); (* keys of g.returnResult; None = nil map *)
+  st_map   : option rmap;          (* g.returnResult; None = nil map *)
   st_stat  : status
 }.
 
@@ -114,7 +119,7 @@ Definition window (c : cfg) (l : list erule) (w : win) : option (list erule) :=
   | WIdx0 => match l with [] => None | x :: _ => Some [x] end
   | WFrom1 => match l with [] => None | _ :: t => Some t end
   | WButLast => match l with [] => None | _ => Some (removelast l) end
-  | WLast => match l with [] => None | _ => Some [last l (mkER "" 0 false false false)] end
+  | WLast => match l with [] => None | _ => Some [last l (mkER "" 0 false false false None)] end
   | WFirstN => if (Z.leb 0 (c_n c) && Z.leb (c_n c) (zlen l))%bool then Some (firstn (Z.to_nat (c_n c)) l) else None
   | WDropNTakeM =>
     if (Z.leb 0 (c_n c) && Z.leb (c_n c) (zlen l))%bool then
@@ -131,13 +136,21 @@ Definition count (c : cfg) (l : list erule) (k : cnt) : Z :=
   | CParamM => c_m c
   end.
 
+(* Go's m[n] = v on the association list: a present key keeps its position and gets the
+   new value, an absent key is appended *)
+Fixpoint set_entry (m : rmap) (n : string) (v : option Z) : rmap :=
+  match m with
+  | [] => [(n, v)]
+  | (k, w) :: m' => if String.eqb k n then (k, v) :: m' else (k, w) :: set_entry m' n v
+  end.
+
 (* g.addResult(name, v) when the rule reported the returned-flag *)
 Definition add_result (s : mstate) (r : erule) : mstate :=
   if eret r then
     match st_map s with
     | None => set_stat s Crash       (* assignment to entry in nil map *)
     | Some m => mkSt (st_local s) (st_names s) (st_errs s) (st_stop s) (st_segs s)
-                     (Some (if existsb (String.eqb (en r)) m then m else m ++ [en r])) (st_stat s)
+                     (Some (set_entry m (en r) (eval r))) (st_stat s)
     end
   else s.
 
@@ -276,7 +289,7 @@ Record outcome := mkOut {
   o_segs : list seg;
   o_err  : bool;                       (* the call returned a non-nil error *)
   o_stat : status;
-  o_map  : option (list string)        (* keys of the map GetRulesResultMap hands back *)
+  o_map  : option rmap                 (* the map GetRulesResultMap hands back *)
 }.
 
 Definition run_prog (p : list instr) (c : cfg) : outcome :=
